@@ -78,7 +78,7 @@ def run(ctx):
         f_neg = [(bug, inv, ex.submit(vf.tlc_mc, "MC_GitPush", "MC_GitPush_neg_" + bug, expect_violation=inv,
                                       workers=1, timeout=300)) for bug, inv in NEG]
         f_gen = [(g, ex.submit(vf.tlc_generate, "MC_GitPush", g, timeout=900)) for g in gens]
-        f_sim = ex.submit(vf.tlc_generate, "MC_GitPush", "MC_GitPush_gen_sim", simulate="num=%d" % ctx.q(4, 50),
+        f_sim = ex.submit(vf.tlc_generate, "MC_GitPush", "MC_GitPush_gen_sim", simulate="num=%d" % ctx.q(4, 30),
                           seed=ctx.seed, timeout=900)
         ctx.add_mc(f_mc.result(), cfg)
         for bug, inv, f in f_neg:
@@ -103,7 +103,7 @@ def run(ctx):
     other = ctx.q("fast", "real")
     jobs = [["push", "--replay", behf, "--shard", i, "--of", K, "--otherpush", other,
              "--out", ctx.path("replay%d.ndjson" % i)] for i in range(K)]
-    n_rand = ctx.q(80, 1600)
+    n_rand = ctx.q(80, 800)
     jobs += [["push", "--random", n_rand // K, "--seed", ctx.seed * 1000 + i, "--maxsteps", 10, "--nb", 2,
               "--otherpush", other, "--out", ctx.path("random%d.ndjson" % i)] for i in range(K)]
     shards(ctx, jobs)
@@ -124,6 +124,11 @@ def run(ctx):
         if i is not None:
             start = max(k for k in range(i + 1) if recs[k]["op"] == "reset")
             v["detail"] = {"history": recs[start:i + 1]}
+            brief = [[x.get("act") or x["op"], x.get("b"), x.get("c")] + ([x["set"]] if x.get("set") else [])
+                     for x in recs[start + 1:i + 1]]
+            vf.log("violation %s: %s | case %s | last record %s" % (
+                v["contract"], json.dumps(brief), json.dumps({k: recs[start].get(k) for k in ("src", "par", "gitonly", "otheronly", "abandon", "nb")}),
+                json.dumps(recs[i])[:700]))
     n_cases = sum(1 for x in recs if x["op"] == "reset")
     n_replayed = sum(1 for x in recs if x["op"] == "reset" and x["src"] == "tlc")
     if n_replayed != len(behs):
